@@ -228,12 +228,17 @@ func (e *Exec) querySweep(r *Replica, m *Model, height int64, full bool, atH int
 		}
 		if rng.Chance(0.15) {
 			// an offset at or beyond the end yields nothing
-			q := n.Query(qTopics, &aoltypes.QueryTopicsRequest{OwnerAddress: oa, Pagination: &query.PageRequest{Offset: uint64(len(wantNames) + rng.Intn(3)), Limit: 5, Reverse: st.Reverse}}, height)
+			wantTotal := rng.Chance(0.6)
+			q := n.Query(qTopics, &aoltypes.QueryTopicsRequest{OwnerAddress: oa, Pagination: &query.PageRequest{Offset: uint64(len(wantNames) + rng.Intn(3)), Limit: 5, Reverse: st.Reverse, CountTotal: wantTotal}}, height)
 			var resp aoltypes.QueryTopicsResponse
 			if e.qpanic(q, "Topics") {
 				return
 			}
-			if q.OK() && resp.Unmarshal(q.Value) == nil && len(resp.TopicNames) > 0 {
+			if q.OK() && resp.Unmarshal(q.Value) == nil && wantTotal && resp.Pagination != nil && resp.Pagination.Total != uint64(len(wantNames)) {
+				e.viol("C13", "listing.topics.total_beyond_end", hex.EncodeToString([]byte(o)), "replica %d height %d: Topics(%s) with count_total and an offset at/beyond the end reports total=%d; the owner has %d topics", r.ID, atH, oa, resp.Pagination.Total, len(wantNames))
+				return
+			}
+			if q.OK() && len(resp.TopicNames) > 0 {
 				e.viol("C13", "listing.topics.beyond_end", hex.EncodeToString([]byte(o)), "replica %d height %d: Topics(%s) with an offset at/beyond the end (%d items) returned %v", r.ID, atH, oa, len(wantNames), resp.TopicNames)
 				return
 			}
